@@ -110,6 +110,48 @@ thread_local! {
     static WRITE_PAD: std::cell::Cell<usize> = const { std::cell::Cell::new(0) };
 }
 
+/// Two documents written one after the other through the same writer object.
+pub fn write_aiger_pair_with_crate(a: &AigOwned, b: &AigOwned, lit: u8, which: AigWriter) -> Vec<u8> {
+    let mut out = Vec::new();
+    {
+        macro_rules! body {
+            ($t:ty) => {{
+                match which {
+                    AigWriter::AsciiAig => {
+                        let mut w = DeferredWriter::from_write(&mut out);
+                        let mut aw = flussab_aiger::ascii::Writer::<$t>::new(&mut w);
+                        aw.write_aig(&to_aig::<$t>(a));
+                        aw.write_aig(&to_aig::<$t>(b));
+                        let _ = std::io::Write::flush(&mut w);
+                    }
+                    AigWriter::AsciiOrdered => {
+                        let mut w = DeferredWriter::from_write(&mut out);
+                        let mut aw = flussab_aiger::ascii::Writer::<$t>::new(&mut w);
+                        aw.write_ordered_aig(&to_ordered::<$t>(a));
+                        aw.write_ordered_aig(&to_ordered::<$t>(b));
+                        let _ = std::io::Write::flush(&mut w);
+                    }
+                    AigWriter::BinaryOrdered => {
+                        let w = DeferredWriter::from_write(&mut out);
+                        let mut bw = flussab_aiger::binary::Writer::<$t>::new(w);
+                        bw.write_ordered_aig(&to_ordered::<$t>(a));
+                        bw.write_ordered_aig(&to_ordered::<$t>(b));
+                        let _ = std::io::Write::flush(&mut bw.writer);
+                    }
+                }
+            }};
+        }
+        match lit % 5 {
+            0 => body!(u8),
+            1 => body!(u16),
+            2 => body!(u32),
+            3 => body!(u64),
+            _ => body!(usize),
+        }
+    }
+    out
+}
+
 /// While `f` runs, every writer wrapper of the harness first puts `pad` filler bytes into its
 /// `DeferredWriter` (and removes them from what it returns): the document's bytes then sit at a
 /// chosen distance from the end of the writer's 16 KiB buffer.
@@ -789,10 +831,13 @@ pub fn repetition_strategy(spec: Spec, max_items: usize) -> BoxedStrategy<Input>
         ParserId::Btor2 => vec![b"\n", b"; c\n", b";\n", b" ", b"1 ", b"-", b"\t", b"a", b"1 sort bitvec 1\n", b"0"],
         _ => vec![b"\n", b"0\n", b"2\n", b" ", b"c\n", b"\x80", b"\xff", b"\x00", b"i0 x\n", b"1", b"0 0 0\n"],
     };
+    // (multi-byte UTF-8 characters and a plain letter: long "words" for the error excerpts)
+    let mut dict = dict;
+    dict.extend_from_slice(&[&b"\xc3\xa9"[..], &b"\xe2\x86\x92"[..], &b"\xf0\x9f\x98\x8a"[..], &b"a"[..], &b"a\xc3\xa9"[..]]);
     (
         doc_strategy(spec, max_items),
         proptest::sample::select(dict),
-        prop_oneof![3 => 1_000usize..20_000, 2 => 20_000usize..200_000, 1 => 200_000usize..1_000_000],
+        prop_oneof![2 => 20usize..200, 3 => 1_000usize..20_000, 2 => 20_000usize..200_000, 1 => 200_000usize..1_000_000],
         any::<u16>(),
         any::<bool>(),
     )
